@@ -313,7 +313,10 @@ def pct_ok(got, num, den):
         return False
     if den == 0:
         return 0.0 <= got <= 100.0
-    if abs(Fraction(got) - Fraction(100 * num, den)) > Fraction(1, 20) + Fraction(1, 10**9):
+    want = Fraction(100 * num, den)
+    # half a unit of the last decimal, plus what a double cannot represent at this magnitude (percentages of 1e8 and more
+    # arise when a container reports free/available far above total)
+    if abs(Fraction(got) - want) > Fraction(1, 20) + Fraction(1, 10**9) + abs(want) * Fraction(1, 2**50):
         return False
     return round(got, 1) == got
 
